@@ -171,7 +171,8 @@ def run(ck, prop, stream, families_note, variants=None, judge=None, theorems=Non
     ck.cov["programs"] = len(ins)
     ck.cov["distinct_nontrivial"] += len(nontrivial)
     ck.cov["traces_validated_against_impl"] += ck.cov["evaluations"]
-    ck.cov["rule"] = (f"{families_note}; every program runs on the real code of each selected variant x parallelism 1..4 and on Spec.run; "
+    fams = sorted({cpu.case_of(l)["family"] for l in ins})
+    ck.cov["rule"] = (f"{families_note}; generator families actually drawn in this run: {', '.join(fams)}; every program runs on the real code of each selected variant x parallelism 1..4 and on Spec.run; "
                       "evaluations = (program, variant, parallelism) runs compared with the reference; distinct_nontrivial = distinct (program text, initial registers) whose reference run executes >= 2 instructions; "
                       "a divergence inside a KNOWN_FINDINGS trigger is counted under that finding, outside every trigger it is a violation")
     ck.cov["input_distribution"] = {"reference_stop_by_family": {f"{a}/{b}": n for (a, b), n in sorted(stops.items())},
